@@ -2,8 +2,14 @@ package props
 
 import (
 	"fmt"
+	"io"
+	"net/http"
+	"net/http/httptest"
+	"sync"
+	"time"
 
 	"github.com/vicanso/pike/config"
+	"github.com/vicanso/pike/server"
 
 	"pikemc/env"
 	"pikemc/vsched"
@@ -185,8 +191,108 @@ func c07EvictedInFlight(c *Ctx, name string, b vsched.Bounds) Sched {
 	}
 }
 
+// c07RealBurst: 60 simultaneous requests for a hit-for-pass key through pike's own listener and its real proxy to a
+// loopback origin that holds every request until all 60 are inside it (or 4 s have passed): "forwarded immediately
+// and independently" also holds below pike's handlers (connection pools, per-host limits).
+func c07RealBurst(c *Ctx) {
+	if !c.Want("real-proxy-burst60") || c.Shard != 2%c.NShards {
+		return
+	}
+	st := c.Stat("real-proxy-burst60", "enumeration")
+	const N = 60
+	st.Bounds = "one hit-for-pass key, 60 concurrent GETs over TCP, origin releases them once all 60 are in flight (or after 4 s)"
+	var mu sync.Mutex
+	inflight, maxIn := 0, 0
+	allIn := make(chan struct{})
+	var once sync.Once
+	origin := httptest.NewServer(http.HandlerFunc(func(w http.ResponseWriter, r *http.Request) {
+		w.Header().Set("Cache-Control", "no-cache")
+		if r.URL.Path != "/burst" {
+			fmt.Fprint(w, "ok")
+			return
+		}
+		mu.Lock()
+		inflight++
+		if inflight > maxIn {
+			maxIn = inflight
+		}
+		if inflight == N {
+			once.Do(func() { close(allIn) })
+		}
+		mu.Unlock()
+		select {
+		case <-allIn:
+		case <-time.After(4 * time.Second):
+		}
+		mu.Lock()
+		inflight--
+		mu.Unlock()
+		fmt.Fprint(w, "passed")
+	}))
+	defer origin.Close()
+	cfg := &config.PikeConfig{
+		Caches:    []config.CacheConfig{{Name: "c1", Size: 100, HitForPass: "5m"}},
+		Upstreams: []config.UpstreamConfig{{Name: "u", Servers: []config.UpstreamServerConfig{{Addr: origin.URL}}}},
+		Locations: []config.LocationConfig{{Name: "l", Upstream: "u"}},
+		Servers:   []config.ServerConfig{{Addr: "127.0.0.1:0", Locations: []string{"l"}, Cache: "c1"}},
+	}
+	env.Silence()
+	env.FreshAll()
+	procEnv = nil
+	if err := env.Apply(cfg); err != nil {
+		c.Violation("real-proxy-burst60", "harness-apply", err.Error(), nil, nil, nil)
+		return
+	}
+	defer env.FreshAll()
+	listen := server.Get("127.0.0.1:0").GetListenAddr()
+	client := &http.Client{Timeout: 20 * time.Second, Transport: &http.Transport{MaxIdleConnsPerHost: 100}}
+	get := func(path string) (int, string, string) {
+		resp, err := client.Get("http://" + listen + path)
+		if err != nil {
+			return 0, "", err.Error()
+		}
+		b, _ := io.ReadAll(resp.Body)
+		resp.Body.Close()
+		return resp.StatusCode, resp.Header.Get("X-Status"), string(b)
+	}
+	// make the key hit-for-pass: the very first request is the only fetching one (it alone is in the origin: released after 4 s)
+	if code, label, _ := get("/burst"); code != 200 || label != "fetching" {
+		c.Violation("real-proxy-burst60", "harness-first-request", fmt.Sprintf("%d %s", code, label), nil, nil, nil)
+		return
+	}
+	mu.Lock()
+	maxIn = 0
+	mu.Unlock()
+	var wg sync.WaitGroup
+	labels := make([]string, N)
+	for i := 0; i < N; i++ {
+		wg.Add(1)
+		go func(i int) {
+			defer wg.Done()
+			_, labels[i], _ = get("/burst")
+		}(i)
+	}
+	wg.Wait()
+	st.Execs = N + 1
+	st.States, st.Transitions, st.Nontrivial = st.Execs, st.Execs, 1
+	st.NOutcomes = 1
+	for i, l := range labels {
+		if l != "hitForPass" {
+			c.Violation("real-proxy-burst60", "label-"+l+"-during-period", fmt.Sprintf("request %d of the burst was labelled %q", i, l), nil, nil, nil)
+			return
+		}
+	}
+	mu.Lock()
+	m := maxIn
+	mu.Unlock()
+	if m < N {
+		c.Violation("real-proxy-burst60", "passes-queued-below-the-handlers", fmt.Sprintf("of 60 simultaneous hit-for-pass requests at most %d were inside the origin at once: the rest waited for earlier ones to finish", m), nil, map[string]int{"max_in_flight": m}, nil)
+	}
+}
+
 func init() {
 	Register("C07", func(c *Ctx) {
+		c07RealBurst(c)
 		c.Out.Rule = "(1) BFS over timed histories {GET with origin answer cacheable/uncacheable/error, tick+1, tick+P} per hit-for-pass configuration, each step compared with the entry specification (label, origin contact, body, Age); (2) every bounded schedule of 3 concurrent requests during the period (must all pass, never queue; a directed schedule must reach all inside the origin at once) and right after it (single probe); non-trivial = every BFS transition / deviating schedule"
 		c.Out.Assume = []string{"whole-second virtual clock; boundary semantics per the granularity argument in oracle/entry.go"}
 		depth := 7
